@@ -58,8 +58,40 @@ Theorem C06_code_is_exact : forall v n E, is_mult v n -> E <= de v -> E <= - n -
   dm v * 2^(de v - E) = scaled_trunc v n * 2^(- n - E).
 Proof. exact code_sc. Qed.
 Print Assumptions C06_code_is_exact.
-(* PARTIAL: the reconciliation with the 64-bit cap (fraction length shortened, value quantized and flagged inexact) and the cases
-   with one size given are modelled and compared on every case, not stated as theorems. *)
+(* only n_frac given, every element a multiple of 2^-n_frac: the fraction length is kept, and the word is the least one whose
+   integer length is non-negative and holds every exact code *)
+Theorem C06_given_frac_minimal_word : forall (signed : bool) wmax vals w f nfr,
+  let sign := if signed then 1 else 0 in
+  vals <> [] -> Forall (fun v => - de v <= 198) vals -> 0 <= nfr -> Forall (fun v => is_mult v nfr) vals ->
+  best_sizes signed None (Some nfr) wmax vals = Ok (w, f) -> w < wmax ->
+  f = nfr /\ f <= w - sign /\
+  Forall (fun v => - 2^(w - sign) <= scaled_trunc v f < 2^(w - sign)) vals /\
+  (f < w - sign -> exists v, In v vals /\ ~ (- 2^(w - sign - 1) <= scaled_trunc v f < 2^(w - sign - 1))).
+Proof. exact best_sizes_given_frac. Qed.
+Print Assumptions C06_given_frac_minimal_word.
+(* only n_word given (below the cap): the word is kept.  With nfr the least fraction length at which every element is exact:
+   the result never exceeds nfr nor the room in the word; when it equals nfr every exact code fits the word (nothing overflows,
+   nothing is rounded); when it is smaller and an integer part remains, that integer part w - sign - f is needed: one bit fewer
+   would not hold the exact value of some element. *)
+Theorem C06_given_word_best_frac : forall (signed : bool) wmax vals w0 w f,
+  let sign := if signed then 1 else 0 in
+  vals <> [] -> Forall (fun v => - de v <= wmax - sign /\ - de v <= 198) vals ->
+  best_sizes signed (Some w0) None wmax vals = Ok (w, f) -> w0 < wmax ->
+  exists nfr,
+    (0 <= nfr /\ Forall (fun v => is_mult v nfr) vals /\ (forall j, 0 <= j < nfr -> exists v, In v vals /\ ~ is_mult v j)) /\
+    w = w0 /\ f <= nfr /\ f <= w - sign /\
+    (f = nfr -> Forall (fun v => - 2^(w - sign) <= scaled_trunc v f < 2^(w - sign)) vals) /\
+    (f < nfr -> f < w - sign ->
+       exists v, In v vals /\ ~ (- 2^(w - sign - f - 1 + nfr) <= scaled_trunc v nfr < 2^(w - sign - f - 1 + nfr))).
+Proof. exact best_sizes_given_word. Qed.
+Print Assumptions C06_given_word_best_frac.
+(* PARTIAL: the reconciliation with the 64-bit cap (fraction length shortened, value quantized and flagged inexact) and n_frac given
+   for values that are not multiples of 2^-n_frac are modelled and compared on every case, not stated as theorems. *)
+Example C06_given_examples :
+  best_sizes true None (Some 4) 64 [ {| dm := -9; de := -2 |} ] = Ok (7, 4) /\
+  best_sizes false (Some 8) None 64 [ {| dm := 5; de := -1 |} ] = Ok (8, 1) /\
+  best_sizes true (Some 6) None 64 [ {| dm := 37; de := -3 |} ] = Ok (6, 2).
+Proof. vm_compute. repeat split; reflexivity. Qed.
 Example C06_minimal_example :
   best_sizes true None None 64 [ {| dm := -5; de := -3 |}; {| dm := 3; de := 0 |}; {| dm := 1; de := -1 |} ] = Ok (6, 3) /\
   is_mult {| dm := -5; de := -3 |} 3 /\ ~ is_mult {| dm := -5; de := -3 |} 2.
